@@ -12,7 +12,8 @@ Line protocol for C15 (`drv_c15 symbols` / `drv_c15 addr`).
   objsyms FCOMMON                        model: ELF symbol table of the object (named symbols)
   spec FCOMMON                           Spec.symbols
   flags                                  model: the Obj list after parse (flags)
-  regions                                which known-finding regions the unit lies in; Spec.valid
+  regions                                which known-finding regions the unit lies in; Spec.valid; the side condition
+                                         and the scope (InScope && symbolsSide) of C15_symbols_partial
 Every query prints its lines followed by `end`.
 -/
 import ChibiVerif.Model.Linkage
@@ -127,7 +128,11 @@ def query (st : St) (cmd : String) (arg : String) : List String :=
      s!"inline-frozen-finding {bit (Spec.Linkage.inlineFrozenFinding ds)}",
      s!"dead-static-local {bit (Spec.Linkage.deadStaticLocalRegion ds)}",
      s!"composite-size {bit (Spec.Linkage.compositeSizeRegion ds)}",
-     s!"extern-init-after-static {bit (Spec.Linkage.externInitAfterStaticRegion ds)}"] ++
+     s!"extern-init-after-static {bit (Spec.Linkage.externInitAfterStaticRegion ds)}",
+     s!"flags-frozen-def {bit (Spec.Linkage.flagsFrozenDefRegion ds)}",
+     s!"refs-ordered {bit (Spec.Linkage.refsOrdered ds [] [])}",
+     s!"symbols-side {bit (Spec.Linkage.symbolsSide ds)}",
+     s!"theorem-scope {bit (Spec.Linkage.symbolsScope ds)}"] ++
     ((Spec.Linkage.fnNames ds).filterMap (fun f =>
       let D := Spec.Linkage.fnDecls ds f
       if Spec.Linkage.fnClass D != Spec.Linkage.fnClassFirst D then
